@@ -41,6 +41,29 @@ const extraOpeners = 4
 const killAfterIdle = "kill-after-idle-shard-flush"
 const afterIdleSuffix = "+after-idle-shard-flush"
 
+// Fault kinds that use the hook points inside the raft node (lib/raftconn/node.go, tag verif):
+//   - kill-before-apply: the store SIGKILLs itself in the raft Ready loop after entries and hard
+//     state (with the commit index) were saved and synced, before the committed entries are
+//     handed to the apply goroutine (point raft-before-publish, action kill(n));
+//   - unreplicated-tail: the raft leader's outgoing raft messages are held back (point
+//     raft-before-send, action sleep) while a burst of writes is proposed: the leader appends
+//     them to its own log, nothing reaches the followers; then it is SIGKILLed. After the
+//     others elected a leader and accepted a few writes it is restarted: the new leader's
+//     first append cuts the stale tail, later writes land in the formerly used log slots.
+const killBeforeApply = "kill-before-apply"
+const unreplTail = "unreplicated-tail"
+const pointBeforePublish = "raft-before-publish"
+const pointBeforeSend = "raft-before-send"
+const pointAfterPublish = "raft-after-publish"
+
+// the burst of the unreplicated-tail fault uses timestamps of the writers' series far above
+// the ones the writers reach (same shard group: baseT+92800 s is the end of the 7-day group)
+const burstBase = 50000
+
+// schedules with an unreplicated-tail fault run with a short coordinator write budget, see
+// runSchedule
+const tailWriteBudget = "2s"
+
 var clock int64
 
 func tick() int64 { return atomic.AddInt64(&clock, 1) }
@@ -84,7 +107,7 @@ func (r *recorder) watched(w int) []key {
 }
 
 type fault struct {
-	Kind   string `json:"kind"`            // kill | pause | kill-during-flush | kill-after-idle-shard-flush
+	Kind   string `json:"kind"`            // kill | pause | kill-during-flush | kill-after-idle-shard-flush | kill-before-apply | unreplicated-tail
 	Target string `json:"target"`          // leader | follower
 	Point  string `json:"point,omitempty"` // kill-during-flush: the hook point inside the flush at which the store dies
 }
@@ -116,7 +139,30 @@ func (rn *runner) runSchedule(sc schedule, worker int) {
 	c := rn.c
 	dir := filepath.Join(c.Scratch, fmt.Sprintf("sched%d", sc.Index))
 	base := freeBase(worker)
-	cl, err := proc.NewCluster(c.RepoDir, c.Scratch, dir, base, false, nil)
+	// The unreplicated-tail fault needs writes that were proposed on the muted leader and are NOT
+	// proposed again elsewhere: ts-sql retries a write whose store died until
+	// shard-writer-timeout (default 10 s) is used up. Whether such a retry is appended by the
+	// new leader is a race (the new master's raft node drops proposals until a leader exists);
+	// every retry that wins it lengthens the catch-up batch of the restarted store, which is
+	// applied from raft's unstable entries and not from the log slots — if the batch covers
+	// the whole stale tail no formerly used slot is left for the later writes. Schedules with
+	// that fault therefore run with a 2 s budget (a documented knob of [coordinator]): at the
+	// kill, 2.6 s after the burst, the budget is used up and nothing is retried. All other
+	// schedules keep the default.
+	var extra map[string][]string
+	hasTail := false
+	for _, f := range sc.Faults {
+		if f.Kind == unreplTail {
+			hasTail = true
+		}
+	}
+	if hasTail && os.Getenv("C05_TAIL_DEFAULT_BUDGET") == "" {
+		extra = map[string][]string{"coordinator": {`shard-writer-timeout = "` + tailWriteBudget + `"`}}
+		c.Distinct("cluster-configuration", "coordinator.shard-writer-timeout="+tailWriteBudget+"(schedules with an unreplicated-tail fault)")
+	} else {
+		c.Distinct("cluster-configuration", "defaults")
+	}
+	cl, err := proc.NewCluster(c.RepoDir, c.Scratch, dir, base, false, extra)
 	if err != nil {
 		c.Broken("cluster: %v", err)
 		return
@@ -269,10 +315,14 @@ func (rn *runner) runSchedule(sc schedule, worker int) {
 	}
 	down := -1
 	var unknownWrites, ackedWrites, failedReads, okReads int64
+	// holdWriters: the writers of the running phase issue no further write (unreplicated-tail:
+	// only the burst is in flight while the leader is muted); inFlight counts their open calls
+	var holdWriters, inFlight int32
 	// one concurrent phase: writers and readers run `n` operations each; the master / raft
 	// leader is sampled in the background
 	runPhase := func(n int, during func()) {
 		var wg sync.WaitGroup
+		atomic.StoreInt32(&holdWriters, 0)
 		stop := make(chan struct{})
 		var swg sync.WaitGroup
 		swg.Add(1)
@@ -294,6 +344,9 @@ func (rn *runner) runSchedule(sc schedule, worker int) {
 				r := rand.New(rand.NewPCG(c.Seed, uint64(sc.Index*1000+phase*10+w)))
 				st := ws[w]
 				for b := 0; b < n; b++ {
+					if atomic.LoadInt32(&holdWriters) != 0 {
+						break
+					}
 					se := r.IntN(nSeries)
 					ti := st.next[se]
 					if ti > 1 && r.IntN(4) == 0 {
@@ -307,9 +360,11 @@ func (rn *runner) runSchedule(sc schedule, worker int) {
 					}
 					v := newVal(w + 1)
 					rec.attempt(w, k)
+					atomic.AddInt32(&inFlight, 1)
 					call := tick()
 					res := cl.Front.Write(db, line(w, se, k.T, v), nil)
 					ret := tick()
+					atomic.AddInt32(&inFlight, -1)
 					o := op{Client: w + 1, Write: true, Key: k, Val: v, Call: call, Phase: phase, Step: step}
 					if res.Acked() { // HTTP 204 and nothing else
 						o.Ret = ret
@@ -418,7 +473,7 @@ func (rn *runner) runSchedule(sc schedule, worker int) {
 		c.Count("reads-ok", okReads)
 		c.Count("reads-failed", failedReads)
 		rn.checkHistory(sc, rec.ops, tl, phases)
-		if sc.Index == 0 {
+		if sc.Index <= 2 {
 			c.Sample(map[string]any{"schedule": sc, "ops_recorded": len(rec.ops), "acked": ackedWrites, "unknown": unknownWrites,
 				"phases": phases, "master_and_leader_changes": tl.snapshot()})
 		}
@@ -426,6 +481,7 @@ func (rn *runner) runSchedule(sc schedule, worker int) {
 
 	var history [3][]string
 	idleFlushSeen := false
+	burstNext := 0
 	for fi, f := range sc.Faults {
 		phase, step = fi+1, stepDuringFault
 		label := fmt.Sprintf("fault%d:%s-%s", fi+1, f.Kind, f.Target)
@@ -442,6 +498,19 @@ func (rn *runner) runSchedule(sc schedule, worker int) {
 					break
 				}
 			}
+			if f.Kind == killBeforeApply {
+				// the follower that ts-meta would make master next (first slave peer of the replica
+				// group): a later kill of the master makes exactly this replica serve
+				if sx := successorStore(cl); sx >= 0 && sx != ldr && sx != down && sx != before.Master {
+					victim = sx
+					c.Distinct("kill-before-apply-follower", "designated-successor-of-the-master")
+				} else {
+					c.Distinct("kill-before-apply-follower", "some-follower(successor-unknown)")
+				}
+			}
+		}
+		if f.Kind == unreplTail {
+			victim = ldr // only the raft leader can hold proposals that reached nobody else
 		}
 		if victim < 0 || ldr < 0 {
 			c.Inconclusive("no-victim-found:"+label, 1)
@@ -518,6 +587,102 @@ func (rn *runner) runSchedule(sc schedule, worker int) {
 				time.Sleep(7500 * time.Millisecond)
 				pi.FaultTick[0] = tick()
 				cl.Stores[victim].Kill()
+			case killBeforeApply:
+				// the store kills itself in the raft Ready loop: HardState.Commit = N is on disk, the
+				// committed entries of that Ready are not handed to the apply goroutine. After the
+				// restart the replica must replay its log up to and including N
+				point := f.Point
+				if point == "" {
+					point = pointBeforePublish
+				}
+				rf := killBeforePublish(cl, victim, point, int64(20+r.IntN(30)))
+				c.Distinct("kill-before-apply-point", point)
+				pi.FaultTick[0] = tick()
+				if !rf.Fired {
+					cl.Stores[victim].Kill() // point not reached within the watchdog: plain kill
+				}
+				pi.Raft = &rf
+				c.Distinct("kill-before-apply:store-died-by-itself-at-the-point", fmt.Sprint(rf.Fired))
+				if rf.Fired {
+					c.Count("kill-before-apply:fired(store died by itself)", 1)
+				} else {
+					c.Count("kill-before-apply:not-fired(plain kill)", 1)
+				}
+			case unreplTail:
+				rf := raftFault{Point: pointBeforeSend}
+				// (1) the writers stop; their open calls return (bounded by the HTTP time-out)
+				atomic.StoreInt32(&holdWriters, 1)
+				for t := 0; t < 600 && atomic.LoadInt32(&inFlight) > 0; t++ {
+					time.Sleep(50 * time.Millisecond)
+				}
+				// (2) every raft message the leader's process sends from now on is held back for 8 s
+				// (longer than the leader lives): it keeps appending proposals to its own log, the
+				// followers see nothing
+				killed := false
+				_, err := setPoints(cl, victim, pointBeforeSend+"=sleep(8000)")
+				rf.Muted = err == nil
+				defer func() {
+					// not needed after the kill (the process is dead); needed if the kill was skipped
+					if rf.Muted && !killed && cl.Stores[victim].Alive() {
+						_, _ = setPoints(cl, victim, "")
+						c.Count("unreplicated-tail:mute-cleared-because-the-kill-was-skipped", 1)
+					}
+				}()
+				muteAt := time.Now()
+				time.Sleep(150 * time.Millisecond) // a message taken from the queue before the mute is on its way
+				// (3) burst: M concurrent single-point writes on fresh keys of the writers' series
+				m := 10 + r.IntN(5)
+				rf.BurstWrites = m
+				var bwg sync.WaitGroup
+				var bAcked, bReturned int32
+				for b := 0; b < m; b++ {
+					w, se := b%nW, (b/nW)%nSeries
+					k := key{seriesName(w, se), baseT + int64(burstBase+burstNext)*1_000_000_000}
+					burstNext++
+					v := newVal(10)
+					rec.attempt(w, k)
+					bwg.Add(1)
+					go func(w, se int, k key, v int64) {
+						defer bwg.Done()
+						call := tick()
+						res := cl.Front.Write(db, line(w, se, k.T, v), nil)
+						ret := tick()
+						o := op{Client: 10, Write: true, Key: k, Val: v, Call: call, Phase: phase, Step: stepDuringFault}
+						if res.Acked() {
+							o.Ret = ret
+							atomic.AddInt32(&bAcked, 1)
+							atomic.AddInt64(&ackedWrites, 1)
+						} else {
+							atomic.AddInt64(&unknownWrites, 1) // stays OPEN: it sits in the leader's log and may or may not survive
+						}
+						atomic.AddInt32(&bReturned, 1)
+						rec.add(o)
+					}(w, se, k, v)
+				}
+				bdone := make(chan struct{})
+				go func() { bwg.Wait(); close(bdone) }()
+				// (4) the calls hang on the muted leader (the store RPC itself waits 10 s); when the
+				// leader dies the coordinator sees the closed connection and — its 2 s write budget
+				// being used up — gives up instead of proposing the writes again elsewhere. The kill
+				// comes 2.6 s after the mute: a follower's election timer needs at least 3.6 s after the
+				// last heartbeat (an election while the muted leader lives would make it cut its tail
+				// before the restart)
+				select {
+				case <-bdone:
+				case <-time.After(2600*time.Millisecond - time.Since(muteAt)):
+				}
+				rf.BurstReturned = int(atomic.LoadInt32(&bReturned))
+				rf.MuteToKillMs = int(time.Since(muteAt) / time.Millisecond)
+				pi.FaultTick[0] = tick()
+				cl.Stores[victim].Kill()
+				killed = true
+				<-bdone // bounded by the client's HTTP time-out
+				rf.BurstAcked = int(atomic.LoadInt32(&bAcked))
+				rf.BurstOpen = m - rf.BurstAcked
+				pi.Raft = &rf
+				c.Count("unreplicated-tail:burst-writes-proposed-on-the-muted-leader", int64(m))
+				c.Count("unreplicated-tail:burst-writes-left-open(never acknowledged)", int64(rf.BurstOpen))
+				c.Count("unreplicated-tail:burst-writes-acknowledged-after-all", int64(rf.BurstAcked))
 			case "pause":
 				cl.Stores[victim].Pause()
 			}
@@ -527,6 +692,14 @@ func (rn *runner) runSchedule(sc schedule, worker int) {
 		if f.Kind == killAfterIdle {
 			nOps = 120 // the writers must stay busy for the 7.5 s the idle shard needs to be flushed
 		}
+		if f.Kind == killBeforeApply {
+			nOps = c.Pick(45, 60) // the writers must still be active when the armed hit of the point is reached
+		}
+		cutEvents0, cutSlots0 := 0, 0
+		if f.Kind != "pause" {
+			cutEvents0, cutSlots0 = tailCuts(cl, victim)
+		}
+		pi.StaleSlotsCut = -1
 		runPhase(nOps, inject)
 		down = victim
 		step = stepQuietDown
@@ -581,7 +754,68 @@ func (rn *runner) runSchedule(sc schedule, worker int) {
 		}
 		down = -1
 		step = stepHealed
+		if f.Kind == unreplTail && pi.Raft != nil {
+			// the new leader's first append reaches the rejoined store and cuts its stale tail
+			// (watched in its log file, bounded; only the pacing depends on it). Then acknowledged
+			// writes are sent ONE BY ONE: each is appended on the rejoined follower in one raft
+			// Ready and committed in a later one, so it is applied from the entry log's slot — a
+			// slot that held an entry of the stale tail before
+			for t := 0; t < 60; t++ {
+				if ev, _ := tailCuts(cl, victim); ev > cutEvents0 {
+					break
+				}
+				time.Sleep(500 * time.Millisecond)
+			}
+			time.Sleep(1500 * time.Millisecond) // the catch-up batch (new leader's no-op + the quiet period's writes) is through
+			nSlow := pi.Raft.BurstWrites + 2
+			for i := 0; i < nSlow; i++ {
+				w := i % nW
+				st := ws[w]
+				acked := false
+				for try := 0; try < 10 && !acked; try++ {
+					ti := st.next[1]
+					st.next[1]++
+					k := key{seriesName(w, 1), baseT + int64(ti)*1_000_000_000}
+					v := newVal(w + 1)
+					rec.attempt(w, k)
+					call := tick()
+					res := cl.Front.Write(db, line(w, 1, k.T, v), nil)
+					ret := tick()
+					o := op{Client: w + 1, Write: true, Key: k, Val: v, Call: call, Phase: phase, Step: step}
+					if res.Acked() {
+						o.Ret = ret
+						st.acked[k] = true
+						acked = true
+						atomic.AddInt64(&ackedWrites, 1)
+					} else {
+						st.dirty[k] = true
+						atomic.AddInt64(&unknownWrites, 1)
+						time.Sleep(300 * time.Millisecond)
+					}
+					rec.add(o)
+				}
+				pi.Raft.SlowWrites++
+				if !acked {
+					pi.Raft.SlowWritesOpen++
+				}
+				time.Sleep(150 * time.Millisecond)
+			}
+			c.Count("unreplicated-tail:writes-sent-one-by-one-after-the-rejoin", int64(pi.Raft.SlowWrites))
+		}
 		runPhase(c.Pick(12, 25), nil) // traffic while the rejoined store catches up
+		if f.Kind != "pause" {
+			ev, sl := tailCuts(cl, victim)
+			if ev > cutEvents0 {
+				pi.StaleSlotsCut = sl - cutSlots0
+				c.Count("restarts-after-which-a-stale-raft-log-tail-was-cut:"+f.Kind, 1)
+				c.Count("stale-raft-log-slots-cut-after-restart:"+f.Kind, int64(sl-cutSlots0))
+			} else {
+				c.Count("restarts-without-a-stale-raft-log-tail:"+f.Kind, 1)
+			}
+			if f.Kind == unreplTail {
+				c.Distinct("unreplicated-tail:stale-tail-cut-by-the-new-leader's-first-append", fmt.Sprintf("observed=%v,slots>=2:%v", ev > cutEvents0, sl-cutSlots0 >= 2))
+			}
+		}
 		step = stepQuietHealed
 		okQ = quiesce(label + "(healed)")
 		o2 := tl.sample(cl, -1)
@@ -809,26 +1043,65 @@ func compress(kops []op) []map[string]any {
 
 // genSchedule draws n faults; withIdle adds the fault kind that leaves one shard of the
 // partition flushed and the other not (odd schedules of the thorough tier).
-func genSchedule(r *rand.Rand, idx, n int, withIdle bool) schedule {
+// withRaftPoints adds the two kinds that use the hook points of the raft node (thorough:
+// schedules 2..7). Such a fault is followed by a kill of the leader (if a slot is left): the
+// master's store dies and — the victim being the designated successor or the previous master —
+// the replica that went through the fault serves. An unreplicated-tail fault always hits the
+// leader; it is drawn in even schedules only (they run with the short write budget, the odd
+// ones keep the default configuration).
+func genSchedule(r *rand.Rand, idx, n int, withIdle, withRaftPoints bool) schedule {
 	sc := schedule{Index: idx}
 	kinds := []string{"kill", "kill", "pause", "kill-during-flush"}
 	if withIdle {
 		kinds = append(kinds, killAfterIdle)
+	}
+	if withRaftPoints {
+		kinds = append(kinds, killBeforeApply, killBeforeApply)
+		if idx%2 == 0 {
+			kinds = append(kinds, unreplTail)
+		}
 	}
 	for i := 0; i < n; i++ {
 		f := fault{Kind: kinds[r.IntN(len(kinds))], Target: []string{"leader", "follower"}[r.IntN(2)]}
 		if f.Kind == "kill-during-flush" {
 			f.Point = flushPoints[r.IntN(len(flushPoints))]
 		}
+		if f.Kind == unreplTail {
+			f.Target = "leader"
+		}
+		if f.Kind == killBeforeApply {
+			f.Point = []string{pointBeforePublish, pointBeforePublish, pointAfterPublish}[r.IntN(3)]
+		}
 		sc.Faults = append(sc.Faults, f)
+		if (f.Kind == unreplTail || f.Kind == killBeforeApply) && i+1 < n {
+			sc.Faults = append(sc.Faults, fault{Kind: "kill", Target: "leader"})
+			i++
+		}
 	}
 	return sc
 }
 
+// raftPointSchedule: follower killed before it applies a committed entry (the designated
+// successor of the master) -> the master's store is killed: that follower serves -> the new
+// leader is killed before it applies -> the leader after that is muted, holds a burst of
+// proposals nobody else has, is killed: the replica of the third fault serves -> after the
+// rejoin (stale tail cut, writes one by one into the formerly used slots) the master's store is
+// killed: the replica with the cut tail serves.
+func raftPointSchedule(idx int) schedule {
+	return schedule{Index: idx, Faults: []fault{
+		{Kind: killBeforeApply, Target: "follower", Point: pointBeforePublish},
+		{Kind: "kill", Target: "leader"},
+		{Kind: killBeforeApply, Target: "leader", Point: pointBeforePublish},
+		{Kind: unreplTail, Target: "leader"},
+		{Kind: "kill", Target: "leader"},
+	}}
+}
+
 func main() {
 	c := vf.New("C05", "fault_enumeration")
-	c.SetRule("seeded nemesis schedules against a real 3 meta / 3 store / 1 sql cluster (ha-policy replication, REPLICAS 3): per fault a concurrent phase (3 writers with unique values incl. overwrites, 2 readers) during which one store — the raft leader or a follower, as read from the control port — is SIGKILLed, killed during a forced flush, or SIGSTOPped; quiescent verification with one store down (a write acknowledged within bounded retries, six identical full reads); heal (restart / SIGCONT), traffic during catch-up, quiescent verification again; the next fault then hits a possibly different store. Oracle: porcupine register check per (series,timestamp) with lost-reply operations kept open; a wrong history is classified by where the wrong reads were given and by the history of the replica that served them; distinct non-trivial = distinct (schedule, fault kind, role of the victim, store)")
-	c.Assume("at most one store is down or paused at any time; meta and sql nodes are not faulted; no network partitions between live processes")
+	c.SetRule("seeded nemesis schedules against a real 3 meta / 3 store / 1 sql cluster (ha-policy replication, REPLICAS 3): per fault a concurrent phase (3 writers with unique values incl. overwrites, 2 readers) during which one store — the raft leader or a follower, as read from the control port — is SIGKILLed, killed during a forced flush, killed by itself inside the raft Ready loop between saving the commit index and handing the committed entries to the apply goroutine (kill-before-apply), muted as raft leader while a burst of writes is proposed and then SIGKILLed so that it restarts with a log tail nobody else has (unreplicated-tail; after the rejoin acknowledged writes are sent one by one into the formerly used log slots), or SIGSTOPped; quiescent verification with one store down (a write acknowledged within bounded retries, six identical full reads); heal (restart / SIGCONT), traffic during catch-up, quiescent verification again; the next fault then hits a possibly different store. Oracle: porcupine register check per (series,timestamp) with lost-reply operations kept open; a wrong history is classified by where the wrong reads were given and by the history of the replica that served them; distinct non-trivial = distinct (schedule, fault kind, role of the victim, store)")
+	c.Assume("at most one store is down or paused at any time; meta and sql nodes are not faulted; no network partitions between live processes (the unreplicated-tail fault holds back the outgoing raft messages of ONE process, the leader's, for less than 3 s before that process is killed)")
+	c.Assume("schedules with an unreplicated-tail fault run with coordinator.shard-writer-timeout = " + tailWriteBudget + " instead of 10 s (ts-sql then does not propose the burst again on the new leader); all other schedules run with the default configuration")
 	c.Assume("bounded liveness: 'writes accepted again' is judged within 80 retries (0.5 s apart, watchdog 150 s); exceeding it is inconclusive, not a violation")
 	c.Assume("a write counts as acknowledged only on HTTP 204; any other reply leaves the operation open; a read that fails, carries an error or is marked partial is not an observation")
 	rn := &runner{c: c}
@@ -845,14 +1118,14 @@ func main() {
 		c.Nontrivial("replay-b")
 		c.Finish()
 	}
-	n := c.Pick(1, 8)
+	n := c.Pick(2, 8)
 	nf := c.Pick(4, 6)
 	var wg sync.WaitGroup
 	sem := make(chan int, 2)
 	sem <- 0
 	sem <- 1
 	for i := 0; i < n; i++ {
-		sc := genSchedule(c.Rand(uint64(500+i)), i, nf, c.Thorough() && i%2 == 1)
+		sc := genSchedule(c.Rand(uint64(500+i)), i, nf, c.Thorough() && i%2 == 1, c.Thorough() && i >= 2)
 		if i == 0 {
 			// the first schedule always covers: the leader dies inside a flush before the data file
 			// exists; after it rejoined its successor is killed (the rejoined store serves again);
@@ -866,6 +1139,15 @@ func main() {
 			// partition was flushed; after it rejoined its successor is killed
 			sc.Faults[0] = fault{Kind: killAfterIdle, Target: "leader"}
 			sc.Faults[1] = fault{Kind: "kill", Target: "leader"}
+		}
+		if (!c.Thorough() && i == 1) || (c.Thorough() && i == 2) {
+			// the schedule of the raft hook points (quick: second schedule, runs beside the first
+			// one; thorough: third schedule, followed by one seeded fault)
+			fixed := raftPointSchedule(i)
+			if c.Thorough() {
+				fixed.Faults = append(fixed.Faults, sc.Faults[0])
+			}
+			sc = fixed
 		}
 		w := <-sem
 		wg.Add(1)
@@ -881,6 +1163,13 @@ func main() {
 		{"fault(kind|raft-role-of-victim|owns-master-partition)", "kill|leader|master"},
 		{"fault(kind|raft-role-of-victim|owns-master-partition)", "kill|follower|not-master"},
 		{"history-of-the-replica-serving-with-one-store-down", "restarted-after-sigkill-during-flush"},
+		{"fault(kind|raft-role-of-victim|owns-master-partition)", killBeforeApply + "|follower|not-master"},
+		{"fault(kind|raft-role-of-victim|owns-master-partition)", killBeforeApply + "|leader|master"},
+		{"fault(kind|raft-role-of-victim|owns-master-partition)", unreplTail + "|leader|master"},
+		{"kill-before-apply:store-died-by-itself-at-the-point", "true"},
+		{"unreplicated-tail:stale-tail-cut-by-the-new-leader's-first-append", "observed=true,slots>=2:true"},
+		{"history-of-the-replica-serving-with-one-store-down", "restarted-after-sigkill-between-commit-index-save-and-apply"},
+		{"history-of-the-replica-serving-with-one-store-down", "restarted-after-sigkill-as-leader-with-unreplicated-log-tail"},
 	}
 	if c.Thorough() {
 		need = append(need, [][2]string{
@@ -900,9 +1189,9 @@ func main() {
 			c.Inconclusive("category-not-reached:"+n[0]+"="+n[1], 1)
 		}
 	}
-	// listed in the design, not produced by this driver: no hook point exists inside the raft
-	// apply path, and the kill of a store is never aimed at the catch-up of another one
-	c.Inconclusive("category-not-reached:kill-at-a-hook-point-inside-raft-apply", 1)
+	// listed in the design, not produced by this driver: the kill of a store is never aimed at
+	// the catch-up of another one. (The kill at a hook point of the raft apply path is the
+	// kill-before-apply fault: between saving the commit index and handing the entries over.)
 	c.Inconclusive("category-not-reached:kill-during-catch-up-of-a-rejoining-store", 1)
 	c.Finish()
 }
